@@ -311,12 +311,16 @@ def run(ctx):
             dur_ok = any(any(o.kind == "call" and o.call.name.endswith("get_idle_client_in_transaction_timeout") for o in origins(hh, t.args[0], taint=True)) for t in tos)
             r8.check(dur_ok, "deadline-from-config", "the deadline is general.idle_client_in_transaction_timeout", "the deadline does not come from idle_client_in_transaction_timeout")
             other_reads = [c for c in hh.calls("re:AsyncBufReadExt::fill_buf$|AsyncReadExt::read(_exact|_u8|_i32|_buf)?$") if claim_ and hh.dominates(claim_[0].block, c.block)]
-            r8.check(not other_reads, "no-raw-client-reads", "the transaction loop reads from the client only through read_message", "the transaction loop also reads the client socket with %s" % sorted({c.name.split("::")[-1] for c in other_reads}))
+            # other waits on the client socket (the cancel-safe fill_buf in front of read_message since the D40 repair) are bounded the same way
+            unbounded = [c for c in other_reads if not any(any(o.kind == "call" and o.call.block == c.block for o in origins(hh, t.args[1])) for t in tos)]
+            r8.check(not unbounded, "no-unbounded-client-reads", "every other wait on the client socket in the transaction loop (%d) is the future given to timeout() as well" % len(other_reads),
+                     "the transaction loop also waits on the client socket with %s outside the deadline" % sorted({c.name.split("::")[-1] for c in unbounded}))
 
     # ---------------- R9 the COPY sub-protocol cannot be used to shift other clients' replies
     r9 = ctx.rule("C11-R9", "while the server is in COPY mode pgcat does not read it per message, so only COPY messages may be forwarded: every send to the server outside the CopyData / CopyDone / CopyFail arms "
                   "of the transaction loop is reached only where Server::in_copy_mode() was false in that iteration (otherwise the reply to the stray message is read up to the ReadyForQuery of the failed COPY, the real "
                   "answer stays unread, and every later client of that connection gets the previous client's answer)", floor=2)
+    code_sw9, inner9, arms9, hsw9 = None, None, {}, None
     if hh:
         hsw9 = switches(hh)
         code_sw9 = [sw for sw in hsw9 if sw.ty in ("char", "u32") and {v for v, _ in sw.targets} >= {81, 83, 100, 99}]
@@ -344,6 +348,23 @@ def run(ctx):
                          "a Query / Sync sent by a client whose COPY FROM STDIN is still open is forwarded (client.rs:%s): after a COPY the server has already failed, the reply is taken up to the wrong ReadyForQuery and the connection "
                          "goes back to the pool with an answer unread - every later client gets the previous client's answer" % c.span.split(":")[1], c.where())
             r9.check(n9 >= 2, "non-copy-send-sites", "%d sends outside the COPY arms examined" % n9, "expected >= 2 sends outside the COPY arms, found %d" % n9)
+
+    # ---------------- R11 no waiting for an answer the server will not give (D38)
+    r11 = ctx.rule("C11-R11", "outside COPY mode PostgreSQL drops CopyDone / CopyFail without any reply: in the CopyDone/CopyFail arm of the transaction loop a reply is awaited only where Server::in_copy_mode() was true - "
+                   "otherwise one stray message pins a server connection to its sender for ever (the wait on the server is not interrupted by the client leaving): the connection is out of service, with pool_size = 1 nobody is served again", floor=1)
+    if not (hh and code_sw9 and inner9):
+        r11.missing("message-code switch / transaction loop in Client::handle")
+    else:
+        arms9 = {v: t for v, t in code_sw9[0].targets}
+        T11, F11, _ = call_bool_edges(hh, "pgcat::server::Server::in_copy_mode", switches_cache=hsw9)
+        end_arms = sorted({arms9[v] for v in (99, 102) if v in arms9})
+        waits = [c for c in hh.calls("pgcat::client::Client::receive_server_message", "pgcat::client::Client::send_and_receive_loop", "pgcat::server::Server::recv") if any(hh.dominates(a_, c.block) for a_ in end_arms)]
+        if not end_arms or not waits:
+            r11.missing("CopyDone/CopyFail arm with a server read in Client::handle")
+        for k_, c in enumerate(waits):
+            w11 = hh.uncrossed_path(end_arms, [c.block], edges=set(T11))
+            r11.check(bool(T11) and w11 is None, "copy-end-reply-awaited-only-in-copy-mode#%d" % (k_ + 1), "the read at client.rs:%s is reached only where in_copy_mode() was true" % c.span.split(":")[1],
+                      "a CopyDone / CopyFail from a client that has no COPY open is forwarded and its (never coming) reply awaited at client.rs:%s" % c.span.split(":")[1], c.where(), w11 and hh.describe_path(w11))
 
     # ---------------- inventory (informational)
     # ---------------- R10 what one client puts into the pool-wide statement cache is not served to another
